@@ -456,6 +456,22 @@ func AlphaFamilies(tier string) []AlphaSpec {
 		Free:  []string{"", "k", "ka", "kb", P(11) + "1", P(11) + "2"},
 		NVals: 2,
 	})
+	// compressed paths of 256 bytes and more whose length modulo 256 lies below the inline limit (a path length narrowed to
+	// a byte looks like a short path there): as a leaf split, below a merge into an inner child, and at 512+
+	for _, n := range []int{256, 261, 513} {
+		out = append(out, AlphaSpec{
+			Name:     fmt.Sprintf("PATH%d", n),
+			Free:     []string{P(n) + "ax1", P(n) + "ax2", P(n) + "b", P(n) + "ay", "q"},
+			Probes:   []string{P(n), P(n) + "a", P(n-1) + "zax1", P(9) + "z" + P(n-10) + "ax1"},
+			Prefixes: []string{P(n), P(n) + "a", P(n - 1), P(n + 1)}, NoAutoP: true,
+		})
+	}
+	out = append(out, AlphaSpec{
+		Name:   "NULTAIL", // keys whose own last bytes are 0x00 (none of them a prefix of another: not the D9 shape)
+		Free:   []string{"a\x00", "b\x00\x00", "\x00", "c", "a\x01", "\x7f\x00"},
+		Probes: []string{"a", "b\x00", "b", "\x00\x00"}, NoAutoP: true,
+		Prefixes: []string{"a", "a\x00", "b\x00", "\x00"},
+	})
 	out = append(out, AlphaSpec{
 		Name:   "HUGE", // key lengths around and beyond 64 KiB (a length kept in 16 bits wraps here); overwrites are transitions
 		Free:   []string{rep('h', 65534), rep('h', 65535), rep('h', 70000)},
